@@ -36,6 +36,10 @@ PROPS = {
         "modules": ["specs.socket_model", "specs.opaque", "contracts.socketutil", "contracts.server_instances"],
         "contracts": ["Pyro5.server.Daemon._getInstance"],
         "lemmas": ["C09:instance-tables-frame"],
+        "groups": [{"modules": ["specs.socket_model", "specs.pystruct", "specs.seqdict", "specs.opaque", "specs.daemon_model", "contracts.socketutil",
+                                "contracts.protocol", "contracts.server_handshake", "contracts.server_instances", "contracts.servers",
+                                "contracts.server_dispatch", "contracts.exception_response", "contracts.connection_close"],
+                    "contracts": ["Pyro5.socketutil.SocketConnection.close#body", "Pyro5.svr_threads.ClientConnectionJob.__call__"]}],
         "harness": "replay/c09.py",
         "explanation": "_getInstance verified against the tables `class -> instance` of the daemon (single) and of the connection (session): "
                        "existing non-None entry reused, otherwise exactly one creation stored and returned, other keys and the other table "
@@ -43,7 +47,9 @@ PROPS = {
                        "daemon table and every creation in single mode happens while holding create_single_instance_lock (monitor obligation), "
                        "which gives one instance per daemon for every interleaving.  Lemma instance-tables-frame (syntactic, on the AST of the current tree): no function of the package other than "
                        "Daemon.__init__ / _getInstance (and SocketConnection.__init__ / close for the session table) rebinds, mutates or passes on either instance table (pure reads are "
-                       "allowed), so nothing else can drop or replace an instance between two calls",
+                       "allowed), so nothing else can drop or replace an instance between two calls.  Second contract group (shared with C13) - 'dropped when the connection ends': SocketConnection.close "
+                       "drops the session instances (after the tracked resources were closed), and the thread server's per-connection job closes the connection exactly once on every exit "
+                       "path, also when the disconnect hook raises",
         "assumptions": ["instances are opaque objects (truthiness/equality uninterpreted)", "threading.Lock provides mutual exclusion; "
                         "the step from `all accesses and the creation are inside one critical section` to `one instance for every interleaving` is the standard monitor argument (DESIGN 2.5), not machine checked",
                         "a connection's session table is only touched by the thread serving that connection"],
@@ -66,8 +72,12 @@ PROPS.update({
         "modules": _DISPATCH_MODS,
         "contracts": ["Pyro5.server.Daemon._handshake", "Pyro5.protocol.recv_stub", "Pyro5.svr_threads.ClientConnectionJob.handleConnection",
                       "Pyro5.svr_threads.ClientConnectionJob.__call__", "Pyro5.svr_multiplex.SocketServer_Multiplex._handleConnection", _HR],
+        "groups": [{"modules": ["specs.socket_model", "specs.pystruct", "specs.seqdict", "specs.opaque", "specs.daemon_model", "contracts.registry"],
+                    "contracts": ["Pyro5.server.DaemonObject.get_metadata"]}],
         "harness": "replay/dispatch.py",
-        "explanation": "_handshake: CONNECTOK is sent (and True returned) only after a CONNECT message was received, the validator returned and the requested "
+        "explanation": "DaemonObject.get_metadata (what _handshake asks whether the object exists; own group): metadata is handed out only for an id under which a live "
+                       "object is registered at that moment - looked up in the registry on every request - and is the metadata of that very object; otherwise DaemonError.  "
+                       "_handshake: CONNECTOK is sent (and True returned) only after a CONNECT message was received, the validator returned and the requested "
                        "object is registered; every other outcome sends exactly one CONNECTFAIL carrying str(reason), or fails while building/sending it; no object "
                        "method runs.  Thread job / multiplex accept path: handleRequest is reached (connection registered) only after _handshake returned True, a refused "
                        "connection is closed.  handleRequest: user code runs only for MSG_INVOKE.",
@@ -184,11 +194,11 @@ PROPS.update({
         "contracts": [_HR],
         "groups": [{"modules": ["specs.socket_model", "specs.pystruct", "specs.seqdict", "specs.opaque", "specs.daemon_model", "contracts.registry"],
                     "contracts": ["Pyro5.server.Daemon.register", "Pyro5.server.Daemon.unregister", "Pyro5.server.Daemon.uriFor#body",
-                                  "Pyro5.server._pyro_obj_to_auto_proxy", "Pyro5.server.Daemon._unregister_collected"],
+                                  "Pyro5.server._pyro_obj_to_auto_proxy", "Pyro5.server.Daemon._unregister_collected", "Pyro5.server.DaemonObject.get_metadata"],
                     "lemmas": ["C16:registry-frame"]}],
         "harness": "replay/dispatch.py",
         "explanation": "dispatch part: the object a request reaches is the registry entry of the request's object id (weak reference unpacked, class instantiated via "
-                       "_getInstance); 'unknown object' is answered only when that entry is None; every invoked member was resolved on that object.  Registry operations (own contract group, stated for one arbitrary id = every id): register puts exactly the new id -> this object (a weak reference to it when weak) into the table, leaves every other id alone, sets _pyroId/_pyroDaemon on the object, takes over an id already in use or re-registers a currently registered object only when forced, never registers a class weakly, refuses (DaemonError / TypeError) without touching the table; unregister (by id or by object) removes exactly that id, never the daemon's own, strips the object's id attributes; uriFor hands out a uri for an object only while its id is registered; the auto-proxy hook replaces an object by one proxy made by its daemon exactly when its id currently designates it (or its class) in the registry and otherwise lets it travel by value; the collection callback of a weak registration (_unregister_collected, bound to the id and to the very weak reference stored) forgets the id exactly while it still holds that reference.  Lemma registry-frame (syntactic): objectsById is rebound / mutated / passed on only by these functions and the constructor.",
+                       "_getInstance); 'unknown object' is answered only when that entry is None; every invoked member was resolved on that object.  Registry operations (own contract group, stated for one arbitrary id = every id): register puts exactly the new id -> this object (a weak reference to it when weak) into the table, leaves every other id alone, sets _pyroId/_pyroDaemon on the object, takes over an id already in use or re-registers a currently registered object only when forced, never registers a class weakly, refuses (DaemonError / TypeError) without touching the table; unregister (by id or by object) removes exactly that id, never the daemon's own, strips the object's id attributes; uriFor hands out a uri for an object only while its id is registered; the auto-proxy hook replaces an object by one proxy made by its daemon exactly when its id currently designates it (or its class) in the registry and otherwise lets it travel by value; the collection callback of a weak registration (_unregister_collected, bound to the id and to the very weak reference stored) forgets the id exactly while it still holds that reference; DaemonObject.get_metadata answers only for an id with a live entry, from the registry as it is now.  Lemma registry-frame (syntactic): objectsById is rebound / mutated / passed on only by these functions and the constructor.",
         "assumptions": _COMMON_ASSUME + ["registry contracts: the registered object is a plain Python object (setting / deleting its Pyro attributes runs no user code), sequential "
                                          "semantics, proxyFor and the type-replacement registration with the serializers as declared; whole histories (falsy, weak, re-used "
                                          "ids, garbage collection) only in the bounded native harness", "GC timing of weak references"],
